@@ -11,4 +11,10 @@ func init() {
 	addStages("C04", "fault_enumeration", e2, chaos())
 	addStages("C02", "exploration", e2,
 		Stage{Engine: "clusterrun", Mode: "learner", BatchesQ: 6, BatchesT: 12, Par: 6, TimeoutQ: 900, TimeoutT: 3600})
+	addStages("C11", "exploration", e2,
+		Stage{Engine: "clusterrun", Mode: "contract", Race: true, BatchesQ: 6, BatchesT: 12, Par: 6, TimeoutQ: 900, TimeoutT: 5400,
+			RaceAttr: []string{"cluster.(*SMInst)", "cluster.(*regularSM)", "cluster.(*concurrentSM)", "cluster.(*onDiskSM)"}})
+	addStages("C12", "exploration", e2,
+		Stage{Engine: "clusterrun", Mode: "requests", Race: true, BatchesQ: 6, BatchesT: 12, Par: 6, TimeoutQ: 900, TimeoutT: 5400,
+			RaceAttr: []string{"(*RequestState)", "(*pendingProposal)", "(*proposalShard)", "(*pendingReadIndex)", "(*pendingConfigChange)", "(*pendingSnapshot)", "(*pendingRaftLogQuery)"}})
 }
